@@ -4,6 +4,7 @@ import (
 	"fmt"
 	"math/rand"
 	"net"
+	"os"
 	"strings"
 	"sync"
 	"sync/atomic"
@@ -377,6 +378,37 @@ func (e *c09Env) runCase(c c09Case, rnd *rand.Rand) {
 			e.judgeHang(c, "drain", w)
 			return
 		}
+		if c.Placement == "conn-accepted-not-registered" && hook == "listener.conn.before_register" && len(clients) > 0 {
+			// the connection whose accept had returned before the drain is an established one: once its handler goes on, it is served
+			s.HookRelease(hook)
+			hook = ""
+			cc := clients[0]
+			cc.SetDeadline(time.Now().Add(3 * time.Second))
+			ok := false
+			if c.Proto == "redis" {
+				rd := resp.NewReader(cc)
+				cc.Write(resp.CmdS("PING"))
+				for i := 0; i < 12; i++ {
+					v, err := rd.Read()
+					if err != nil {
+						break
+					}
+					if v.Kind == resp.Simple && string(v.Str) == "PONG" {
+						ok = true
+						break
+					}
+				}
+			} else {
+				buf := make([]byte, 64)
+				cc.Write([]byte("x"))
+				n, _ := cc.Read(buf)
+				ok = n > 0
+			}
+			if !ok {
+				r.Violation("C09:drain-dropped-accepted-connection:"+c.Proto, "a connection that had been accepted before StopListen was called (its handler had not registered it yet) was closed instead of served", w)
+			}
+			r.Count("connections_accepted_before_drain_served", 1)
+		}
 		if strings.HasPrefix(c.Placement, "serving") {
 			// new connections are refused, established ones are untouched
 			if !portRefuses(addr) {
@@ -554,7 +586,7 @@ func waitStat(s *sutc.SUT, name, suffix string, min uint64, timeout time.Duratio
 }
 
 func c09(r *ev.Run) {
-	r.Rule("lifecycle enumeration {stop immediately after start, while the bind is being retried (port occupied), after bind but before the socket is published, before the accept loop, with a connection accepted but not yet registered, with a backend dial in flight, after repeated host replacements under traffic, while serving with 0 / 1 / 50 connections and requests in flight (also more than the session queue holds)} x backend behaviour {responsive, silent, not reading, closed, silent for the slot refresh only} x {redis, tcp} x {stop, drain then stop, stop twice}, plus connection limits {1, 3, 16}; distinct = distinct (protocol, placement, backend, action, connections) tuples")
+	r.Rule("lifecycle enumeration {stop immediately after start, while the bind is being retried (port occupied), after bind but before the socket is published, before the accept loop, with a connection accepted but not yet registered, with a backend dial in flight, with the backend writer holding a written request while its reply arrives, with a multi-key request that overflows a backend client's queues, after repeated host replacements under traffic, while serving with 0 / 1 / 50 connections and requests in flight (also more than the session queue holds)} x backend behaviour {responsive, silent, not reading, closed, silent for the slot refresh only} x {redis, tcp} x {stop, drain then stop, stop twice}, plus connection limits {1, 3, 16} (sequential arrivals, and bursts of 24-63 connections released together into registration); distinct = distinct (protocol, placement, backend, action, connections) tuples")
 	r.Assume("bounded-progress restatement: Stop / StopListen must return within 6 s; an expired deadline is a hang only if the control channel still answers and two goroutine dumps 500 ms apart show the call parked in the same frame")
 	r.Assume("after Stop: nobody serves the port (SO_REUSEPORT makes 'can re-bind' meaningless), every downstream and upstream connection is closed within 3 s, no goroutine with a frame in samaritan/proc or samaritan/host remains (the process-wide tcp-shaker loop is excluded)")
 	e := &c09Env{r: r}
@@ -607,6 +639,15 @@ func c09(r *ev.Run) {
 			}
 		}
 	}
+	if only := os.Getenv("VERIF_C09_ONLY"); only != "" { // debugging aid: the volume requirements below then report the run inconclusive
+		var kept []c09Case
+		for _, c := range cases {
+			if strings.Contains(c.Placement, only) {
+				kept = append(kept, c)
+			}
+		}
+		cases = append(kept, c09Case{"tcp", "serving", "responsive", 1, "stop"})
+	}
 	for _, c := range cases {
 		e.runCase(c, rnd)
 	}
@@ -614,6 +655,7 @@ func c09(r *ev.Run) {
 	runAPIPart(r, "listener", false, nil, 10*time.Minute)
 	r.Sample(map[string]interface{}{"cases": len(cases), "example": cases[len(cases)/2]})
 	r.Require("placements_judged", int64(len(cases)/2))
+	r.Require("limit_bursts", 60)
 }
 
 // c09Limit: with limit L, connections under the limit are always served, never more than L are served at once, and a slot freed by a
@@ -703,6 +745,79 @@ func c09Limit(r *ev.Run, e *c09Env, rnd *rand.Rand) {
 		}
 		for _, c := range held {
 			c.Close()
+		}
+		// bursts: B connections are accepted and held just before registration, then released together, so that their limit checks
+		// and registrations interleave as tightly as the scheduler allows; at most L may be served, and (a slot being free) at least one
+		waitIdle := func() bool {
+			for t := 0; t < 300; t++ {
+				mu.Lock()
+				a := active
+				mu.Unlock()
+				if a == 0 {
+					return true
+				}
+				time.Sleep(10 * time.Millisecond)
+			}
+			return false
+		}
+		rounds := 40
+		if r.Tier == "thorough" {
+			rounds = 400
+		}
+		const hookName = "listener.conn.before_register"
+		for round := 0; round < rounds && waitIdle(); round++ {
+			B := 24 + rnd.Intn(40)
+			mu.Lock()
+			maxActive = 0
+			mu.Unlock()
+			s.HookArm(hookName, sutc.HookAction{Mode: "spin", Times: B}) // spin: the held goroutines stay on their CPUs and run into registration at the same instant
+			var conns []net.Conn
+			for i := 0; i < B; i++ {
+				if c, err := net.DialTimeout("tcp", svc.Addr, 2*time.Second); err == nil {
+					conns = append(conns, c)
+				}
+			}
+			parked := s.WaitParked(hookName, int64(len(conns)), 3*time.Second)
+			s.HookRelease(hookName)
+			if !parked {
+				for _, c := range conns {
+					c.Close()
+				}
+				r.Inconclusive("hook-not-reached:" + hookName + ":burst")
+				continue
+			}
+			served := int32(0)
+			var bw sync.WaitGroup
+			for _, c := range conns {
+				bw.Add(1)
+				go func(c net.Conn) {
+					defer bw.Done()
+					if echo(c) {
+						atomic.AddInt32(&served, 1)
+					}
+				}(c)
+			}
+			bw.Wait()
+			mu.Lock()
+			mx = maxActive
+			mu.Unlock()
+			for _, c := range conns {
+				c.Close()
+			}
+			if os.Getenv("VERIF_DEBUG") != "" {
+				fmt.Fprintf(os.Stderr, "burst L=%d B=%d served=%d mx=%d\n", L, len(conns), served, mx)
+			}
+			if int(served) > L || mx > L {
+				r.Violation("C09:connection-limit-exceeded:burst", fmt.Sprintf("with limit %d, a burst of %d connections released together into registration had %d served at once (%d echoed)", L, len(conns), mx, served),
+					map[string]interface{}{"limit": L, "burst": len(conns), "max_served_at_once": mx, "echoed": served, "round": round})
+				break
+			}
+			if served == 0 {
+				r.Violation("C09:connection-under-limit-not-served:burst", fmt.Sprintf("with limit %d and no connection open, none of a burst of %d connections was served", L, len(conns)),
+					map[string]interface{}{"limit": L, "burst": len(conns), "round": round})
+				break
+			}
+			r.Count("limit_bursts", 1)
 		}
 		st, _ := s.Stats("service." + svc.Name + ".")
 		if st["service."+svc.Name+".downstream.cx_restricted"] == 0 {
